@@ -58,6 +58,19 @@ def long_scripts(seed, count):
     return "\n".join(lines) + "\n", cfgs
 
 
+def busy_scripts(seed, tier):
+    """One uninterrupted busy period: three workers that release only when every other thread is blocked, so the lock never
+    goes idle and the tickets handed out in that period run past 2^16 (the counters restart only at an idle instant)."""
+    rnd = random.Random("%s-busy" % seed)
+    lines, cfgs = [], {}
+    plans = [("Wq:Wq:Wq", 22000), ("Wq:RqWq:WqRq", 14000)] + ([("Rq:Wq:RqRq:Wq", 30000), ("Wq:Wq", 50000)] if tier == "thorough" else [])
+    for i, (prog, rep) in enumerate(plans):
+        cfg = "n=%d mode=random prog=%s rep=%d quiet=1 timeouts=0 seed=%d stay=1 stayden=2" % (prog.count(":") + 1, prog, rep, rnd.randrange(1, 2 ** 31))
+        lines += ["X b%d %s" % (i, cfg), "E"]
+        cfgs["b%d" % i] = cfg
+    return "\n".join(lines) + "\n", cfgs
+
+
 # ------------------------------------------------------------------------------------------
 # model checking
 # ------------------------------------------------------------------------------------------
@@ -187,6 +200,10 @@ def y_scripts(seed, count, kind):
                     ln = rnd.randrange(1, 5)
                     progs.append("".join(("W" if rnd.random() < wprob else "R") + rnd.choice("rg") for _ in range(ln)))
             cfg = "n=%d mode=random prog=%s %s" % (n, ":".join(progs), sched)
+            if i % 3 == 1:
+                # every worker holds a read lock of a second, never written Resource around its program: what a thread holds
+                # elsewhere must not change how this lock treats it
+                cfg += " outer=1"
         elif kind == "readers":
             n = rnd.randrange(2, 9)
             progs = ["".join("R" + rnd.choice("rg") for _ in range(rnd.randrange(1, 4))) for _ in range(n)]
@@ -277,6 +294,11 @@ def check(pid, tier, seed):
         ls, lcf = long_scripts(seed, {"quick": 60, "thorough": 3000}[tier])
         yruns.update(common.run_harness(asan_harness(), ls))
         ycfgs.update(lcf)
+
+    if pid != "C12":
+        bs, bcf = busy_scripts(seed, tier)
+        yruns.update(common.run_harness(exe, bs))
+        ycfgs.update(bcf)
 
     execs = {}
     src = {}
